@@ -103,7 +103,7 @@ def run_case(case):
                            ev=[dict(i=e['i'], converged=e['converged'], degenerate=e['degenerate'], needs_smaller=e['needs_smaller'],
                                     dirchg=e['dirchg'], numchg=e['numchg']) for e in it]),
                 m=m, err=np.abs(np.asarray(coefs) - ex).tolist(), est=np.abs(np.asarray(info.error_estimate)).tolist(), exact=np.abs(ex).tolist(),
-                degenerate=bool(info.degenerate), failed=bool(info.failed), iterations=int(info.iterations), R=R, fmax=fmax,
+                calls=int(calls[0]), degenerate=bool(info.degenerate), failed=bool(info.failed), iterations=int(info.iterations), R=R, fmax=fmax,
                 der_ok=bool(scaled_ok(der, coefs, fact) and scaled_ok(dinfo.error_estimate, info.error_estimate, fact)),
                 rad=(rad(z0) if callable(rad) else rad))
 
@@ -238,7 +238,8 @@ def run(tier, rep):
             rep.violation('too-few-coefficients', dict(case=name, got=o['m']), '%s: %d coefficients returned, at least %d required' % (name, o['m'], n + 1))
         if not o['der_ok']:
             rep.violation('derivative-scaling', dict(case=name), '%s: derivative() is not taylor() times k! (values or error estimates)' % name)
-        if o['failed'] != (not o['trace']['hd']['converged']):
+        # (whether the search converged is re-derived from the per-iteration events by Trace_Taylor: ConvergedMeans / FailedIffCap)
+        if o['failed'] != (not o['trace']['hd']['converged']) or (o['failed'] and o['trace']['hd']['circles'] != o['trace']['hd']['max_iter']):
             rep.violation('failed-flag', dict(case=name), '%s: failed=%s but the search %s' % (name, o['failed'], 'converged' if o['trace']['hd']['converged'] else 'hit the cap'))
         poly = F[fi][0].startswith('z^3')
         if default and n <= 20 and not poly and o['rad'] >= 1.5 and (o['degenerate'] or o['failed']):
